@@ -408,7 +408,8 @@ def helper_frames(b):
     ok = bool(first_if) and any(isinstance(s, ast.Assign) and ast.unparse(s) == "world_config = copy.deepcopy(world_config)" for s in first_if[0].body)
     before = fn.node.body[:fn.node.body.index(first_if[0])] if first_if else []
     uses_before = any(isinstance(x, ast.Name) and x.id == "world_config" for s in before for x in ast.walk(s))
-    ground(b, f"{fn.key}::copies_config", fn.key, "build_world rebinds world_config to copy.deepcopy(world_config) before any other use of the dictionary", ok and not uses_before)
+    structural(b, f"{fn.key}::copies_config", fn.key, "build_world rebinds world_config to copy.deepcopy(world_config) before any other use of the dictionary",
+               "ok" if (ok and not uses_before) else "unknown", detail="deep copy statement not found in the recognised place" if not ok else "world_config used before the copy")
 
 
 def _replay_naming(ob, res):
